@@ -74,7 +74,9 @@ def cases_for(prop):
         meta = json.load(open(mp))
         props = {meta.get("property")} | set(meta.get("also_breaks", []))
         if prop in props:
-            seeded.append((os.path.basename(d), os.path.join(d, "patch.diff")))
+            # a change that replaces part of the trusted base (e.g. its own sympy printer) cannot be judged: the expected report is ANALYSIS-ERROR
+            exp = "analysis-error" if str(meta.get("expected_report", "")).upper() == "ANALYSIS-ERROR" else "violation"
+            seeded.append((os.path.basename(d), os.path.join(d, "patch.diff"), exp))
     twins = [(os.path.basename(p)[:-5], p) for p in sorted(glob.glob(os.path.join(core.VERIF, "twins", "*.diff")))]
     return seeded, twins
 
@@ -90,8 +92,8 @@ def run(ctx: core.Ctx):
         ops = []
     jobs = []
     with cf.ThreadPoolExecutor(16) as ex:
-        for name, patch in seeded:
-            jobs.append(ex.submit(one_patch, prop, ctx.repo, "seeded:" + name, patch, "violation"))
+        for name, patch, exp in seeded:
+            jobs.append(ex.submit(one_patch, prop, ctx.repo, "seeded:" + name, patch, exp))
         for name, patch in twins:
             jobs.append(ex.submit(one_patch, prop, ctx.repo, "twin:" + name, patch, "holds"))
         for op in ops:
@@ -101,6 +103,8 @@ def run(ctx: core.Ctx):
     for r in results:
         if r["result"] in ("skipped", "not-applicable"):
             continue
+        if r["expect"] == "analysis-error" and r["result"] not in ("analysis-error", "violation"):
+            problems.append(f"sensitivity: {r['case']} leaves the trusted base and was expected to be reported (analysis-error) but the check says {r['result']}")
         if r["expect"] == "violation" and r["result"] != "violation":
             problems.append(f"sensitivity: {r['case']} was expected to be reported but the check says {r['result']} {r['detail']}")
         if r["expect"] == "holds" and r["result"] != "holds":
